@@ -10,7 +10,7 @@ let machine_of (j : json) : machine =
 let variant_of (j : json) : variant =
   match to_str j with
   | "pinned" -> v_pinned | "take_only" -> v_take_only | "take_drop" -> v_take_drop | "take_drop_wake" -> v_take_drop_wake
-  | "first_repair" -> v_first_repair | "repaired" -> v_repaired | _ -> life_variant
+  | "first_repair" -> v_first_repair | "repaired" -> v_repaired | "rendezvous" -> v_rendezvous | _ -> life_variant
 
 let outcome_of (s : state) : string =
   match s.st_main with
@@ -41,13 +41,14 @@ let h_variant (_ : json) : json =
   Obj [ ("unwrap_ctx", jbool v.v_unwrap_ctx); ("conn_dropped_before_join", jbool v.v_conn_dropped_before_join);
         ("join_wakes", jbool v.v_join_wakes); ("select_completes", jbool v.v_select_completes);
         ("register_before_accept", jbool v.v_register_before_accept); ("join_tolerates_dead", jbool v.v_join_tolerates_dead);
-        ("recovers_poison", jbool v.v_recovers_poison) ]
+        ("recovers_poison", jbool v.v_recovers_poison); ("handler_rendezvous", jbool v.v_handler_rendezvous) ]
 
 let h_outcomes (req : json) : json =
   let script = List.map action_of (to_list (field req "script")) in
   let s0 = match to_str (field req "dead") with
     | "dead" -> initial_dead false script
     | "dead_poisoned" -> initial_dead true script
+    | "launch_in_flight" -> initial_launch script
     | _ -> initial (to_bool (field req "attached")) (machine_of (field req "machine")) script in
   let (o, d, n) = outcomes (variant_of (field req "variant")) s0 in
   Obj [ ("outcomes", Arr (List.map (fun x -> Str x) o)); ("expect", jnat (spec_exit_code script)); ("depth", jint d); ("states", jint n) ]
